@@ -9,6 +9,7 @@ require (
 	github.com/openconfig/gribi v1.9.1
 	github.com/openconfig/gribigo v0.0.0
 	github.com/openconfig/ygot v0.34.0
+	go.uber.org/atomic v1.11.0
 	google.golang.org/grpc v1.79.3
 	google.golang.org/protobuf v1.36.11
 )
@@ -20,7 +21,6 @@ require (
 	github.com/kylelemons/godebug v1.1.0 // indirect
 	github.com/openconfig/gnmi v0.14.1 // indirect
 	github.com/openconfig/goyang v1.6.3 // indirect
-	go.uber.org/atomic v1.11.0 // indirect
 	golang.org/x/exp v0.0.0-20250218142911-aa4b98e5adaa // indirect
 	golang.org/x/net v0.55.0 // indirect
 	golang.org/x/sys v0.45.0 // indirect
